@@ -1,7 +1,7 @@
 // c14: contexts are confined to their goroutine and dynamic scope.
 //
 // G: program trees over Do/DoWithContext/DoWithLoader/Fork/Go/threadlocal.Go/Try/Set/Delete/Push/Pop/SetLoader/
-// Define/Observe/Panic (prog.go), run by 1-8 real root goroutines plus the goroutines they fork, on the real
+// Define/Observe/Panic/Goexit (prog.go), run by 1-8 real root goroutines plus the goroutines they fork, on the real
 // implementation (run.go).  In mode "sched" a deterministic scheduler grants one step at a time, so that the
 // interleaving is known and can be replayed in the model; in mode "free" the goroutines run in parallel.
 // D: at every Observe px.CurrentContext() must be the context handed to the enclosing body, the state of that
@@ -131,7 +131,7 @@ func main() {
 	cfg := lib.ParseFlags()
 	res := lib.NewResult("C14")
 	res.Rule = "a case = programs of 1-8 root goroutines (trees over Do/Try/DoWithContext/DoWithLoader/Fork/Go/threadlocal.Go/" +
-		"Set/Delete/Push/Pop/SetLoader/Define/Observe/Panic, depth<=4) + a schedule; non-trivial when at least two goroutines " +
+		"Set/Delete/Push/Pop/SetLoader/Define/Observe/Panic/Goexit, depth<=4) + a schedule; non-trivial when at least two goroutines " +
 		"ran (a fork took place or several roots) or a panic was recovered inside the program and followed by an observation; " +
 		"distinct = distinct (program text, mode, recorded schedule)"
 	runtime.GOMAXPROCS(8)
